@@ -220,7 +220,7 @@ func engineCodec(rep *Report) {
 			if only >= 0 && i != only {
 				continue
 			}
-			codecCase(rep, s, d, i)
+			guardCase(rep, "C01", "codec", string(s.FullName), i, func() { codecCase(rep, s, d, i) })
 		}
 	}
 }
